@@ -712,7 +712,7 @@ def clause_pool_model(facts, rep, tier):
                 head = w.mem['shared_']['chunkHead']
                 is_last = p0 + m0 == head.addr + HDR + dict.__getitem__(head, 'size')
                 room = dict.__getitem__(head, 'capacity') - dict.__getitem__(head, 'size')
-                new = {'same': m0, 'shrink': max(m0 - 8, 0), 'grow8': m0 + 8, 'fit': m0 + room, 'fit+8': m0 + room + 8, 'big': m0 + 200, 'zero': 0}[op[2]]
+                new = {'same': m0, 'shrink': max(m0 - 8, 0), 'grow8': m0 + 8, 'grow3': m0 + 3, 'fit': m0 + room, 'fit+8': m0 + room + 8, 'big': m0 + 200, 'zero': 0}[op[2]]
                 w.copies = []
                 p = w.call('Realloc', p0, m0, new)
                 if new == 0:
@@ -750,8 +750,8 @@ def clause_pool_model(facts, rep, tier):
                 if not inside(w, q, m):
                     return 'after %s: the block [0x%x, +%d) handed out earlier is no longer inside a live chunk' % (op, q, m)
         return None
-    sizes = [0, 1, 8, 9, 24, 40, 41, 64, 65, 200]
-    alphabet = [('malloc', n) for n in sizes] + [('realloc', w_, k) for w_ in ('last', 'first') for k in ('same', 'shrink', 'grow8', 'fit', 'fit+8', 'big', 'zero')] + [('clear',)]
+    sizes = [0, 1, 8, 9, 24, 40, 41, 64, 65, 200, 70000]
+    alphabet = [('malloc', n) for n in sizes] + [('realloc', w_, k) for w_ in ('last', 'first') for k in ('same', 'shrink', 'grow8', 'grow3', 'fit', 'fit+8', 'big', 'zero')] + [('clear',)]
     depth = 3 if tier == 'thorough' else 2
     bad = None
     nseq = 0
@@ -778,10 +778,12 @@ def clause_pool_model(facts, rep, tier):
                 break
         # three operations, the first two being allocations of boundary sizes
         if bad is None and depth < 3:
-            firsts = [('malloc', n) for n in (1, 24, 40, 64, 65)]
+            firsts = [('malloc', n) for n in (1, 24, 40, 64, 65)] + [('realloc', 'last', 'grow3')]
             for pname, pf in sorted(pol.items()):
                 for user in (0, 40):
                     for a_, b_ in itertools.product(firsts, repeat=2):
+                        if a_[0] != 'malloc':
+                            continue
                         for c_ in alphabet:
                             nseq += 1
                             try:
